@@ -59,7 +59,9 @@ def gen_exchange(rng, base):
     lm = rng.random()
     if lm < 0.4:
         instant = feedgen.rand_instant(rng)
-        hdrs.append((rcase(rng, "Last-Modified"), civil.r822(instant, 0, zone="gmt")))
+        # the HTTP-date forms a recipient has to accept besides IMF-fixdate (RFC 9110 5.6.7: asctime) and the ISO 8601 stamps some servers send
+        form = rng.choice(["imf", "imf", "imf", "asctime", "iso"])
+        hdrs.append((rcase(rng, "Last-Modified"), civil.r822(instant, 0, zone="gmt") if form == "imf" else civil.rasctime(instant, 0) if form == "asctime" else civil.rw3(instant, 0, zone="Z")))
     elif lm < 0.5:
         hdrs.append((rcase(rng, "Last-Modified"), rng.choice(["garbage", "yesterday"])))
     cl = None
@@ -83,7 +85,8 @@ def gen_exchange(rng, base):
         if rng.random() < 0.2:
             caller[rcase(rng, "Content-Language")] = "de"
     hops = rng.choice([0, 0, 0, 1, 2, 3])
-    return {"body": body, "kind": kind, "headers": hdrs, "status": status, "caller": caller, "hops": hops, "redirect_code": rng.choice([301, 302, 303, 307, 308]), "instant": instant, "cl": cl}
+    return {"body": body, "kind": kind, "headers": hdrs, "status": status, "caller": caller, "hops": hops, "redirect_code": rng.choice([301, 302, 303, 307, 308]), "instant": instant, "cl": cl,
+            "scheme_case": rng.choice([None, None, None, "HTTP", "Http"])}
 
 
 def summary(r):
@@ -110,6 +113,9 @@ def run_exchange(srv, ex):
             first = src
     srv.table[path] = (ex["status"], ex["headers"], ex["body"])
     url, final = srv.url(first), srv.url(path)
+    # URI schemes are case-insensitive (RFC 3986 3.1): HTTP://host/ is the same request
+    if ex.get("scheme_case"):
+        url = ex["scheme_case"] + url[4:]
     w = {"exchange": ex}
     with warnings.catch_warnings():
         warnings.simplefilter("ignore")
@@ -277,7 +283,7 @@ def search(ctx, focus=None):
         raw.close()
     return {"evaluations": n, "distinct_nontrivial": len(distinct), "failures": failures, "distribution": dist,
             "rule": "loopback exchanges: bodies (vocabulary-wide feeds, abstract feeds in the eight formats, latin-1 feed, junk, truncated) x response header sets (names in random case; content types "
-                    "with / without charset; ETag; Last-Modified from a known instant / garbage; Content-Location relative / absolute / absent; Content-Language; custom) x status {200, 203, 206, "
+                    "with / without charset; ETag; Last-Modified from a known instant (IMF-fixdate, asctime, ISO 8601) / garbage; the URL's scheme in lower / upper / mixed case; Content-Location relative / absolute / absent; Content-Language; custom) x status {200, 203, 206, "
                     "404, 410, 500} x redirect chains of 0-3 hops (301/302/303/307/308, relative and absolute Location) x caller response_headers overriding in any case; oracle: status, final "
                     "href, lower-cased merged headers, etag, modified and its parsed instant (civil-date oracle), and equality with offline parsing of the body under the same headers + final URL "
                     "as Content-Location; transport faults {refused, closed before status, garbage status line, closed inside headers, short body at every cut, bad chunk framing, bad gzip, reset "
